@@ -524,7 +524,61 @@ def _column_rebinding(col, rule="C14.R7"):
                 "a new entry is added to the column list when len(value) == len(table)", str([S.show(c) for c in lens]))
 
 
+def _in_place_append_only_on_fresh_tables(col, rule="C14.R2"):
+    """_concatenate_table extends its receiver in place: it is applied to a table made for the purpose (a copy, a new instance), never to
+    a table the caller handed in"""
+    repo = col.repo
+    mod = repo.cls("Table").module
+    n = 0
+    for c in mod.classes.values():
+        for mname, fn in c.methods.items():
+            if mname == "_concatenate_table":
+                continue
+            fresh_names = set()
+            stores = {}
+            for x in ast.walk(fn):
+                if isinstance(x, ast.Assign) and len(x.targets) == 1 and isinstance(x.targets[0], ast.Name):
+                    stores.setdefault(x.targets[0].id, []).append(x.value)
+                elif isinstance(x, ast.Name) and isinstance(x.ctx, ast.Store):
+                    stores.setdefault(x.id, [])
+            params = {a.arg for a in fn.args.args + fn.args.kwonlyargs}
+
+            def fresh(e):
+                if isinstance(e, ast.Call):
+                    f = e.func
+                    if isinstance(f, ast.Attribute) and f.attr in ("_copy", "copy", "__class__"):
+                        return True
+                    if isinstance(f, ast.Name) and (f.id in ("cls", "Table") or f.id in mod.classes):
+                        return True
+                    if isinstance(f, ast.Attribute) and f.attr == "_concatenate_table":
+                        return fresh(f.value)      # returns its receiver
+                    return False
+                if isinstance(e, ast.Name) and e.id not in params:
+                    vals = stores.get(e.id, [])
+                    return bool(vals) and all(fresh(v) for v in vals)
+                return False
+            called = set()
+            for x in ast.walk(fn):
+                if isinstance(x, ast.Call) and isinstance(x.func, ast.Attribute) and x.func.attr == "_concatenate_table":
+                    called.add(id(x.func))
+                    n += 1
+                    col.add(rule, f"{c.name}.{mname}#in-place-append-on-a-fresh-table", fresh(x.func.value), mod.loc(x),
+                            "the table extended in place was made here (copy / new instance)", A.src(x)[:80], positive=True)
+            for x in ast.walk(fn):
+                if isinstance(x, ast.Attribute) and x.attr == "_concatenate_table" and id(x) not in called:
+                    # handed on as a function (reduce / map): the accumulator it starts from must be fresh
+                    parent = next((p_ for p_ in ast.walk(fn) if isinstance(p_, ast.Call) and x in p_.args), None)
+                    ok = parent is not None and (A.dotted(parent.func) or "").split(".")[-1] == "reduce" and len(parent.args) == 3 and fresh(parent.args[2])
+                    n += 1
+                    col.add(rule, f"{c.name}.{mname}#in-place-append-on-a-fresh-table", ok, mod.loc(x),
+                            "the table extended in place was made here (copy / new instance)", A.src(parent if parent is not None else x)[:80], positive=True)
+    if n < 1:
+        raise AnalysisError("Table: no use of _concatenate_table found -- anchor lost, cannot decide")
+
+
 def check(col: Collector):
+    with col.rule():
+        _in_place_append_only_on_fresh_tables(col)
     with col.rule():
         _no_pattern_columns(col)
     with col.rule():
